@@ -269,3 +269,36 @@ func SiblingAttemptVsHolder(L time.Duration) (out Outcome) {
 	la.Unlock()
 	return out
 }
+
+// SlowStorageTenure: A's storage answers every renewal slowly but well inside half a lease (before: until the
+// request is executed, after: until the answer is back; a caller whose context ends meanwhile gets the context's
+// error). A holds for 4 leases; a Locker of another provider spinning TryLock must never get the lock.
+func SlowStorageTenure(L, before, after time.Duration) (out Outcome) {
+	stop := canary()
+	defer func() { out.Stall = stop() }()
+	inner := inmem.New()
+	tA := New(inner)
+	tA.HonourCtx = true
+	tA.CasSlowBefore, tA.CasSlowAfter = before, after
+	pa := dist.NewKvsLockProvider(tA, "/lt/")
+	pb := dist.NewKvsLockProvider(inner, "/lt/")
+	for _, p := range []dist.LockProvider{pa, pb} {
+		dist.VerifSetLeaseTTL(p, L)
+		defer p.Shutdown()
+	}
+	la, lb := pa.NewLocker("x"), pb.NewLocker("x")
+	la.Lock()
+	t0 := time.Now()
+	for time.Since(t0) < 4*L {
+		if lb.TryLock(context.Background()) {
+			out.Sig = "two-holders-on-slow-storage"
+			out.What = fmt.Sprintf("lease %v: the holder's storage executes every renewal after %v and answers after another %v (well inside half a lease); %v into the tenure another provider's TryLock succeeded although the holder has not unlocked; storage calls of the holder: %v", L, before, after, time.Since(t0).Round(time.Millisecond), tA.Events())
+			out.TimeBound = true
+			lb.Unlock()
+			break
+		}
+		time.Sleep(L / 10)
+	}
+	la.Unlock()
+	return out
+}
